@@ -8,10 +8,10 @@ export CARGO_TARGET_DIR=$wt/target CARGO_NET_OFFLINE=true
 git checkout -q -- . ; git clean -fdq -e out -e target
 fa=(); [ -n "$feat" ] && fa=(--features "$feat")
 git apply out/patch.diff && git apply out/demo.diff || { echo "CONFIRM: apply failed"; exit 8; }
-cargo test -p $crate "${fa[@]}" --offline --no-fail-fast > out/confirm_with.log 2>&1
+cargo test -p $crate "${fa[@]}" --offline --no-fail-fast $CONFIRM_EXTRA > out/confirm_with.log 2>&1
 echo "with defect: $(grep -E '^test result' out/confirm_with.log | tr '\n' ';')"
 grep -E "^test .* FAILED|^    [a-z_:0-9]+$" out/confirm_with.log | sort -u | head -10
 git apply -R out/patch.diff
-cargo test -p $crate "${fa[@]}" --offline --no-fail-fast > out/confirm_without.log 2>&1
+cargo test -p $crate "${fa[@]}" --offline --no-fail-fast $CONFIRM_EXTRA > out/confirm_without.log 2>&1
 echo "without defect: $(grep -E '^test result' out/confirm_without.log | tr '\n' ';')"
 git checkout -q -- . ; git clean -fdq -e out -e target
